@@ -42,7 +42,7 @@ REACH = [
 EXHAUSTIVE_NOTE = ("all 3^n basis strings (n=1..4) as single-basis batches for ComplexWaveFunction and DensityMatrix "
                    "are enumerated in both tiers")
 ASSUMPTIONS = ["torch autograd of complex128 expressions is correct",
-               "mixed states: the library value may match the gradient of -log(p~+1e-8) or of -log p~",
+               "mixed states: the library value may match the gradient of -log p~, of -log(p~+1e-8) on rotated rows only, or on all rows",
                "softplus threshold approximation budgeted (3e-9 per unit)"]
 MIN_PER_WORKER = 3
 TAU = 3e-9
@@ -122,13 +122,16 @@ def run_case(case, ctx):
         orders["ph"] = lib_order(st.rbm_ph)
     nets = ["am"] + (["ph"] if kind != "positive" else [])
 
-    def ref_flat(reg):
-        tot = R.t_sum_neg_log_p(kind, tam, tph, n, rows, bl, reg=reg)
+    def ref_flat(reg, rot_only=False):
+        tot = R.t_sum_neg_log_p(kind, tam, tph, n, rows, bl, reg=reg, reg_rotated_only=rot_only)
         g = R.grads_of(tot, tam, tph)
         return [gen.flat(g[net], orders[net]) for net in nets]
 
     refs = [ref_flat(0.0)]
     if kind == "mixed":
+        # admissible readings of "up to the library's 1e-8 regularisation of rotated probabilities":
+        # none, on rotated rows only (what the code does), on every row
+        refs.append(ref_flat(1e-8, rot_only=True))
         refs.append(ref_flat(1e-8))
     glz = R.grads_of(R.t_log_Z(kind, tam, tph, n), tam, tph)
     glz = gen.flat(glz["am"], orders["am"])
